@@ -355,8 +355,11 @@ def near_plateau_edge(score, cont, cat):
   wd = float(score.wd)
   c = np.asarray(score.c)
   wc = np.asarray(score.wc, np.float64)
-  xc = np.asarray(cont, np.float64).reshape(-1, t.shape[0])
-  xk = np.asarray(cat).reshape(-1, c.shape[0])
+  xc = np.asarray(cont, np.float64)
+  xk = np.asarray(cat)
+  n = int(np.prod(xc.shape[:-1]))
+  xc = xc.reshape(n, t.shape[0])
+  xk = xk.reshape(n, c.shape[0])
   for a, k in zip(xc, xk):
     d = np.where(m, a - t, 0.0)
     s = -wd * float(np.sum(d * d)) + float(np.sum(np.where(k == c, wc, 0.0)))
